@@ -203,12 +203,9 @@ func runC11(p *Program, r *Result) {
 				continue
 			}
 			n++
-			if !(in.Block() == loop.Exit || loop.Exit.Dominates(in.Block())) {
-				bad = "dst is used at " + r.pos(in) + " before the recipient loop has completed"
+			if !p.completedAt(loop, in.Block()) {
+				bad = "dst is used at " + r.pos(in) + " before the recipient loop has completed (or the loop can be left by break)"
 			}
-		}
-		if len(loop.earlyExits()) != 0 {
-			bad = "the recipient loop can be left by break"
 		}
 		r.Check(bad == "", enc.String(), "dst:uses", "", itoa(n)+" uses of dst, all dominated by the loop exit", bad)
 		// headerMAC before Marshal
